@@ -116,12 +116,8 @@ func genC35Plan(t *rapid.T) *c35Plan {
 			c.In = pick(t, "in.s", 3000)
 		case 12, 13, 14, 15, 16, 17:
 			c.In = pick(t, "in.m", 150000)
-		case 18:
-			c.In = 2<<20 + pick(t, "in.l", 100000) // more than the 2 MiB window of the Go side
-			c.LateRead = pick(t, "late", 2) == 0
 		default:
-			c.In = 2 << 20 // exactly the window
-			c.LateRead = true
+			c.In = pick(t, "in.m2", 300000)
 		}
 		if pick(t, "inerr", 3) == 0 {
 			c.InErr = pick(t, "inerr.s", 20000)
@@ -129,8 +125,6 @@ func genC35Plan(t *rapid.T) *c35Plan {
 		switch pick(t, "indrop", 20) {
 		case 0, 1, 2, 3:
 			c.InDrop = 1 + pick(t, "indrop.s", 50000)
-		case 4:
-			c.InDrop = 2<<20 + 70000 + pick(t, "indrop.l", 100000) // only possible when discarded bytes are credited back
 		}
 		c.InCode = []uint32{2, 3, 255, 1<<32 - 1}[pick(t, "incode", 4)]
 		c.InChunk = []int{1, 100, 5000, 32768, 32768}[pick(t, "inchunk", 5)]
@@ -152,17 +146,22 @@ func genC35Plan(t *rapid.T) *c35Plan {
 		c.Requests = []int{0, 0, 1, 5}[pick(t, "requests", 4)]
 		p.Chans = append(p.Chans, c)
 	}
-	// at most one bulk (> 2 MiB) transfer per history keeps the cost bounded
-	bulk := false
-	for i := range p.Chans {
-		c := &p.Chans[i]
-		if c.In >= 2<<20 || c.InDrop >= 2<<20 {
-			if bulk {
-				c.In, c.InDrop, c.LateRead = c.In%50000, c.InDrop%50000, false
-			} else if c.In >= 2<<20 && c.InDrop >= 2<<20 {
-				c.InDrop %= 50000
-			}
-			bulk = true
+	// at most one bulk (>= 2 MiB, the window of the Go side) transfer per history keeps the cost bounded
+	if b := pick(t, "bulk", 24); b < 3 {
+		c := &p.Chans[pick(t, "bulkchan", len(p.Chans))]
+		c.InChunk, c.InErr = 32768, c.InErr%5000
+		if c.ReadBuf < 4096 {
+			c.ReadBuf = 4096
+		}
+		switch b {
+		case 0:
+			c.In = 2 << 20 // exactly the window, all of it before the application reads
+			c.LateRead = true
+		case 1:
+			c.In = 2<<20 + pick(t, "in.l", 100000)
+			c.LateRead = pick(t, "late", 2) == 0
+		default:
+			c.InDrop = 2<<20 + 70000 + pick(t, "indrop.l", 100000) // only possible when discarded bytes are credited back
 		}
 	}
 	return p
@@ -249,10 +248,6 @@ func (r *c35Run) maybeGrant(c *c35Peer) {
 		case pl.Huge && !c.hugeDone:
 			amt = uint32(mx.MaxWindow - c.credit.Window) // the sum is exactly 2^32-1
 			c.hugeDone = true
-		case pl.Overflow && c.hugeDone:
-			// the window is near 2^32-1: one more byte than fits
-			amt = uint32(mx.MaxWindow-c.credit.Window) + 1
-			c.overflowSent = true
 		default:
 			amt = pl.Refill
 		}
@@ -272,11 +267,6 @@ func (r *c35Run) maybeGrant(c *c35Peer) {
 			}
 		}
 		r.s.Peer.WritePacket(mx.WindowAdjust(c.goID, amt))
-		if pl.Overflow && c.hugeDone && !c.overflowSent {
-			// the window now is exactly 2^32-1: one more byte must be refused
-			c.overflowSent = true
-			r.s.Peer.WritePacket(mx.WindowAdjust(c.goID, 1))
-		}
 	}
 }
 
@@ -480,9 +470,7 @@ func runC35Refpeer(p *c35Plan) (string, c35Stats, error) {
 		c.credit = mx.NewCredit(c.plan.Window, c.plan.MaxPkt)
 		r.chans = append(r.chans, c)
 		r.byPeer[c.peerID] = c
-		if c.plan.Overflow && c.plan.Out+c.plan.Err > 0 {
-			expectEnd = true
-		}
+
 	}
 	s, err := newSession(sessOpts{GoIsClient: p.GoIsClient, Seed: p.Seed, Prog: prog})
 	if err != nil {
@@ -722,34 +710,6 @@ func runC35Refpeer(p *c35Plan) (string, c35Stats, error) {
 		ended = true
 	default:
 	}
-	overflowSent := false
-	for _, c := range r.chans {
-		overflowSent = overflowSent || c.overflowSent
-	}
-	if overflowSent {
-		// a WINDOW_ADJUST that lifts the window above 2^32-1 must be treated as an error
-		r.stats.overflow = true
-		if !ended {
-			s.Peer.WritePacket(mx.Ping([]byte("o")))
-			pc := make(chan struct{})
-			go func() {
-				defer close(pc)
-				select {
-				case <-r.pong:
-				case <-r.errCh:
-				}
-			}()
-			if res := watch.Wait(pc); res.Verdict != mx.Done {
-				return finish(res, "barrier after the overflowing window adjust")
-			}
-			select {
-			case <-r.errCh:
-			default:
-				r.fail("a WINDOW_ADJUST that raises the window above 2^32-1 was accepted: the connection is still up")
-			}
-		}
-		return finish(mx.Result{}, "")
-	}
 	if ended {
 		r.fail("the connection ended during compliant traffic (Go-side write/read errors: %d)", goErrs.Load())
 		return finish(mx.Result{}, "")
@@ -780,7 +740,60 @@ func runC35Refpeer(p *c35Plan) (string, c35Stats, error) {
 			}
 		}
 	}
-	return finish(res, "final barrier")
+	if res.Verdict != mx.Done || r.violation() != "" {
+		return finish(res, "final barrier")
+	}
+	// overflow phase.  All writers are done and everything they sent has been accounted, so both
+	// sides agree on the remaining window W.  An adjust to exactly 2^32-1 must be accepted, one
+	// more byte must be treated as an error (RFC 4254 5.2: the window MUST NOT exceed 2^32-1).
+	ping := func(what string) (alive bool, res mx.Result) {
+		s.Peer.WritePacket(mx.Ping([]byte("o")))
+		pc := make(chan struct{})
+		go func() {
+			defer close(pc)
+			select {
+			case <-r.pong:
+			case <-r.errCh:
+			}
+		}()
+		res = watch.Wait(pc)
+		if res.Verdict != mx.Done {
+			return false, res
+		}
+		select {
+		case <-r.errCh:
+			return false, res
+		default:
+			return true, res
+		}
+	}
+	for _, c := range r.chans {
+		if !c.plan.Overflow {
+			continue
+		}
+		r.stats.overflow = true
+		if d := mx.MaxWindow - c.credit.Window; d > 0 {
+			s.Peer.WritePacket(mx.WindowAdjust(c.goID, uint32(d)))
+			alive, res := ping("adjust to 2^32-1")
+			if res.Verdict != mx.Done {
+				return finish(res, "barrier after the window adjust to 2^32-1")
+			}
+			if !alive {
+				r.fail("channel %d: a WINDOW_ADJUST of %d that lifts the window (remaining %d) to exactly 2^32-1 ended the connection", c.idx, d, c.credit.Window)
+				break
+			}
+		}
+		s.Peer.WritePacket(mx.WindowAdjust(c.goID, 1))
+		alive, res := ping("overflowing adjust")
+		if res.Verdict != mx.Done {
+			return finish(res, "barrier after the overflowing window adjust")
+		}
+		if alive {
+			r.fail("channel %d: a WINDOW_ADJUST that raises the window above 2^32-1 was accepted: the connection is still up", c.idx)
+		}
+		break
+	}
+	return finish(mx.Result{}, "")
 }
 
 // ---- half B: Go <-> Go ----
